@@ -46,11 +46,14 @@ class LThread:
 
 class Scheduler:
     def __init__(self, rng=None, choices=None, timeouts="when_stuck", max_steps=200000, stickiness=0.0,
-                 preempt_lines=0, preempt_prob=0.0, src_prefix=None):
+                 preempt_lines=0, preempt_prob=0.0, src_prefix=None, current_first=False):
         """rng: random.Random for scheduling choices (after `choices`, a replay prefix, is used up).
         timeouts: 'when_stuck' (a timed wait expires only when nothing else can run; the virtual clock then
         jumps to the earliest deadline) or 'adversarial' (a timed waiter may expire at any scheduling point).
-        preempt_lines: budget of extra line-level pre-emptions inside files under `src_prefix`."""
+        preempt_lines: budget of extra line-level pre-emptions inside files under `src_prefix`.
+        current_first: list the running thread first among the candidates whenever it can continue, so that
+        choice 0 means "no pre-emption" (`trace_p` records whether that was the case; used by the
+        pre-emption-bounded DFS).  Off by default: candidate order = thread creation order."""
         self.rng = rng
         self.choices = list(choices or [])
         self.timeouts = timeouts
@@ -59,6 +62,10 @@ class Scheduler:
         self.threads: list[LThread] = []
         self.current: LThread | None = None
         self.trace: list[int] = []
+        self.trace_n: list[int] = []  # number of alternatives at each recorded choice (for DFS exploration)
+        self.trace_p: list[bool] = []  # was alternative 0 "the running thread continues"? (current_first only)
+        self.current_first = current_first
+        self._cur_can_continue = False
         self.now = 0.0
         self.steps = 0
         self.aborted = False
@@ -72,6 +79,8 @@ class Scheduler:
         self.src_prefix = src_prefix
         self.blocked_report = ""
         self.closed = False  # set when the run is over: every primitive becomes inert (late finalisers)
+        self.line_events = 0
+        self._idents: set[int] = set()  # real idents of this scheduler's live logical threads
 
     # -- introspection -------------------------------------------------------------------
     def in_logical_thread(self):
@@ -106,6 +115,7 @@ class Scheduler:
         t = LThread(self, base, fn, args)
 
         def body():
+            self._idents.add(threading.get_ident())
             t.sem.acquire()
             try:
                 if self.aborted:
@@ -122,6 +132,7 @@ class Scheduler:
             finally:
                 sys.settrace(None)
                 t.alive = False
+                self._idents.discard(threading.get_ident())
                 if not self.aborted:
                     try:
                         self._reschedule(t, finished=True)
@@ -141,6 +152,8 @@ class Scheduler:
         return self._line_tracer
 
     def _line_tracer(self, frame, event, arg):
+        if event == "line":
+            self.line_events += 1  # lets a harness calibrate preempt_prob to the length of a run
         if event == "line" and self.preempt_left > 0 and not self.aborted and self.rng is not None:
             if self.rng.random() < self.preempt_prob:
                 self.preempt_left -= 1
@@ -203,6 +216,8 @@ class Scheduler:
         else:
             c = 0
         self.trace.append(c)
+        self.trace_n.append(n)
+        self.trace_p.append(self._cur_can_continue)
         return c
 
     def _pick(self):
@@ -217,6 +232,11 @@ class Scheduler:
                 cands.append(t)
             elif t.deadline is not None:
                 timed.append(t)
+        self._cur_can_continue = False
+        if self.current_first and self.current in cands:
+            cands.remove(self.current)
+            cands.insert(0, self.current)
+            self._cur_can_continue = True
         if self.timeouts == "adversarial" and timed and cands:
             allc = cands + timed
             t = allc[self._choose(len(allc))]
@@ -261,11 +281,18 @@ class Scheduler:
             if self.aborted:
                 raise SchedAbort()
 
+    def _aborted_here(self):
+        """after a tear-down only this scheduler's own threads are unwound with SchedAbort; a finaliser that
+        touches one of its primitives from a foreign thread (garbage collection of channels) is left alone"""
+        return self.aborted and threading.get_ident() in self._idents
+
     def yield_point(self, what=""):
         if self.closed:
             return
         if self.aborted:
-            raise SchedAbort()
+            if self._aborted_here():
+                raise SchedAbort()
+            return
         if not self.in_logical_thread():
             return
         cur = self.current
@@ -277,9 +304,9 @@ class Scheduler:
         """Scheduling point; then wait until pred() holds.  Returns False iff the (virtual) time-out expired."""
         if self.closed:
             return bool(pred())
-        if self.aborted:
+        if self._aborted_here():
             raise SchedAbort()
-        if not self.in_logical_thread():
+        if self.aborted or not self.in_logical_thread():
             # outside a scheduler run (set-up / tear-down code): no concurrency, never block
             return bool(pred())
         cur = self.current
